@@ -225,6 +225,18 @@ void run_C06(vh::Ctx& c) {
       for (int q = 0; q < d * d; q++) if (!(std::fabs(X1[q] - X2[q]) <= 2 * tw)) { c.violation(vh::fmt("C06:WeightedRotation:d%d:overloads-disagree", d), what + vh::fmt(" component %d: %.17g vs %.17g", q, X1[q], X2[q])); break; }
       if (Y.GetComponents() != y) c.violation("C06:WeightedRotation:Y-modified", what);
       c.count("weighted_rotations");
+      // the weight is passed by reference and may be the rotated vector itself
+      if (r.coin(0.3)) {
+        SU_vector Z1 = make(a), Z2 = make(a);
+        Z1.WeightedRotation(k, Z1, kw);
+        Z2.WeightedRotation(Vg.get(), Z2, Wg.get());
+        double mz = d * ma;
+        double tz = K * EPS * d * ma * (1 + mz * mz) * (2 * nrot + 8);
+        ref::Mat wantz = ref::dag(Wm) * MA * U * MA * ref::dag(U) * MA * Wm;
+        cmp(c, vh::fmt("C06:WeightedRotation(Const):d%d:wrong-value-when-weight-is-the-target", d), Z1, wantz, tz, what + " [Y is the target itself]");
+        cmp(c, vh::fmt("C06:WeightedRotation(matrix):d%d:wrong-value-when-weight-is-the-target", d), Z2, wantz, tz, what + " [Y is the target itself]");
+        c.count("weighted_rotations_aliased");
+      }
     }
     if (idx - part1 < 5 && idx > part1) c.sample(what.substr(0, 400));
   });
